@@ -14,6 +14,7 @@ import re
 import vlib
 
 PROPS = ["C05"]
+ALSO = ["C01", "C02", "C03"]      # contributed coverage for the tombstone lattices (merged by the driver)
 ENGINE = "spec/Tombstone: monitor + transcription of the set/map tombstone merges (TLC exhaustive over replica histories), all short histories and all merge pairs replayed into the real lattices on 3 backends, trace validation of seeded random histories"
 MANIFEST = {
     "C05": {
@@ -50,9 +51,10 @@ def _write_cfg(name, spec, variant, nrep, items, vals, pair_items, maxlen, emit)
     p = os.path.join(vlib.rundir("cfg"), name)
     with open(p, "w") as f:
         f.write("SPECIFICATION %s\nCONSTANTS\n  VARIANT = \"%s\"\n  NRep = %d\n  Items = %s\n  Vals = %s\n"
-                "  PairItems = %s\n  MaxLen = %d\n  EMIT = %s\nINVARIANTS C05Inv ImplInv%s\n"
+                "  PairItems = %s\n  LawItems = %s\n  MaxLen = %d\n  EMIT = %s\nINVARIANTS C05Inv ImplInv AlsoInv%s\n"
                 "PROPERTIES NoResurrection\nCHECK_DEADLOCK FALSE\n"
-                % (spec, variant, nrep, _set(items), _set(vals), _set(pair_items), maxlen,
+                % (spec, variant, nrep, _set(items), _set(vals), _set(pair_items),
+                   _set([0, 1] if variant == "set" else [0]), maxlen,
                    "TRUE" if emit else "FALSE", " Emit" if emit else ""))
     return p
 
@@ -84,6 +86,7 @@ def _validate(events, d, name, res=None, chunks=CHUNKS):
     with concurrent.futures.ThreadPoolExecutor(max_workers=k) as ex:
         outs = list(ex.map(one, range(k)))
     viol, drift = [], []
+    also = _validate.also = []
     for i, (ok, r) in enumerate(outs):
         if not ok:
             raise vlib.ToolError("trace not consumed by TombstoneTrace (%s chunk %d):\n%s" % (name, i, r.error_trace[-2000:]))
@@ -91,8 +94,12 @@ def _validate(events, d, name, res=None, chunks=CHUNKS):
         dr = vlib.printed_json(r, "DRIFT")
         if not v or not dr:
             raise vlib.ToolError("TombstoneTrace printed no VIOL/DRIFT line (%s chunk %d)" % (name, i))
+        al = vlib.printed_json(r, "ALSO")
+        if not al:
+            raise vlib.ToolError("TombstoneTrace printed no ALSO line (%s chunk %d)" % (name, i))
         viol += v[0]
         drift += dr[0]
+        also += al[0]
         if res is not None:
             res.add_tlc(r, "trace-validation:%s/%d" % (name, i))
     return viol, drift
@@ -122,8 +129,39 @@ def _report(res, viol, events, origin):
                       {"events": evs})
 
 
+def _report_also(extra, also, events, origin):
+    """C01 / C02 / C03 rule breaks <<case, property, rule>> -> violations of that property"""
+    by_case = {c[0]["case"]: c for c in _split_cases(events)}
+    for cid, pid, rule in sorted(also, key=lambda v: (len(by_case.get(v[0], [])), v[0])):
+        evs = by_case.get(cid, [])
+        variant = evs[0].get("variant") if evs else "?"
+        last = evs[-1] if evs else {}
+        inp = {k: last[k] for k in ("a", "b", "c") if k in last} or [{k: v for k, v in e.items() if k != "obs"} for e in evs[1:]]
+        extra[pid].violation("tombstone/%s/%s" % (variant, rule),
+                             "%s wrong on the %s tombstone lattice in %s case %s: input %s observed %s"
+                             % (rule, variant, origin, cid, json.dumps(inp)[:300], json.dumps(last.get("obs"))[:300]),
+                             {"events": evs})
+
+
+def _count_also(extra, events):
+    for c in _split_cases(events):
+        ops = [e["e"] for e in c[1:]]
+        n_law, n_ord = ops.count("law"), ops.count("ord")
+        n_merge = sum(1 for o in ops if o in ("ins", "insbot", "del", "merge"))
+        if n_law:
+            extra["C01"].traces += 1
+            extra["C01"].evaluations += 3 * n_law * len(c[1]["obs"])
+        if n_ord:
+            extra["C03"].traces += 1
+            extra["C03"].evaluations += 4 * n_ord * len(c[1]["obs"])
+        if n_ord or n_merge:
+            extra["C02"].traces += 1
+            extra["C02"].evaluations += (n_ord + n_merge) * len(c[1]["obs"])
+
+
 def run(tier):
     res = vlib.PropResult("C05")
+    extra = {p: vlib.PropResult(p) for p in ALSO}
     thorough = tier == "thorough"
     bindir = vlib.cargo_build("hv_tuples", bins=["tombstone"])
     exe = os.path.join(bindir, "tombstone")
@@ -181,6 +219,8 @@ def run(tier):
         raise vlib.ToolError("harness replayed %s of %d cases" % (summ["cases"], len(cases)))
     events = [e for e in vlib.read_ndjson(trace) if e.get("e") != "eof"]
     viol, drift = _validate(events, d, "replay", res)
+    _report_also(extra, _validate.also, events, "replayed")
+    _count_also(extra, events)
     res.traces += len(cases)
     res.evaluations += len(events) - len(cases)
     for dr in summ["drift"][:10]:
@@ -192,9 +232,9 @@ def run(tier):
     for c in _split_cases(events):
         if _nontrivial(c):
             seen.add(_sig(c))
-    pair = next(c for c in cases if c["steps"][0]["o"]["op"] == "load" and c["steps"][1]["o"]["tomb"] and c["steps"][0]["o"]["live"])
+    pair = next(c for c in cases if c["steps"][0]["o"]["op"] == "load" and len(c["steps"]) > 1 and c["steps"][1]["o"]["tomb"] and c["steps"][0]["o"]["live"])
     res.samples.append({"kind": "replayed merge pair (TLC-generated, with the model's prediction per step)", **pair})
-    hist = [c for c in cases if c["steps"][0]["o"]["op"] != "load" and len(c["steps"]) >= 3 and
+    hist = [c for c in cases if c["steps"][0]["o"]["op"] not in ("load", "law", "ord") and len(c["steps"]) >= 3 and
             any(s["o"]["op"] == "merge" for s in c["steps"]) and any(s["o"]["op"] == "del" for s in c["steps"])]
     res.samples.append({"kind": "replayed history", **hist[len(hist) // 2]})
 
@@ -206,6 +246,8 @@ def run(tier):
         raise vlib.ToolError("tombstone random failed: " + p.stderr[-2000:])
     revents = [e for e in vlib.read_ndjson(rtrace) if e.get("e") != "eof"]
     rviol, rdrift = _validate(revents, d, "random", res)
+    _report_also(extra, _validate.also, revents, "random")
+    _count_also(extra, revents)
     res.traces += count
     res.evaluations += len(revents) - count
     for cid, what in rdrift[:10]:
@@ -237,6 +279,24 @@ def run(tier):
                 done = True
     if not done:
         raise vlib.ToolError("no event with tombstones found for the canary")
+    # canary for the contributed properties: a flipped merge flag / a wrong partial_cmp must be flagged
+    mcase = next(c for c in rcases if any(e["e"] == "merge" for e in c))
+    badm = json.loads(json.dumps(mcase))
+    j = next(i for i, e in enumerate(badm) if e["e"] == "merge")
+    for o in badm[j]["obs"]:
+        o["ch"] = not o["ch"]
+    ocase = next(c for c in _split_cases(events) if len(c) > 1 and c[1]["e"] == "ord" and c[1]["obs"][0]["cmp"] == "lt")
+    bado = json.loads(json.dumps(ocase))
+    bado[1]["obs"][0]["cmp"] = "gt"
+    lcase = next(c for c in _split_cases(events) if len(c) > 1 and c[1]["e"] == "law")
+    badl = json.loads(json.dumps(lcase))
+    badl[1]["obs"][0]["eqc"] = 0
+    _validate(badm + bado + badl, d, "canary_also", chunks=1)
+    got = {(v[1], v[2]) for v in _validate.also}
+    if not {("C02", "changed-flag"), ("C03", "partial_cmp"), ("C01", "commutativity")} <= got:
+        raise vlib.ToolError("canary (flipped merge flag / wrong partial_cmp / failed == of a|b, b|a) NOT flagged: %s" % sorted(got))
+    for p in ALSO:
+        extra[p].extra["canary_tombstone"] = "flipped merge flag, wrong partial_cmp and failed commutativity == flagged: %s" % sorted(got)
     res.extra["backends"] = ["hash (HashSet<u64>)", "roaring (RoaringTombstoneSet, u64)", "fst (FstTombstoneSet<String>)"]
 
     res.rule = ("case = one replica history (reset + ops) executed on all three backends; evaluations = calls observed; "
@@ -245,7 +305,29 @@ def run(tier):
     res.assumptions = ["insert / delete are realised as merges of singleton / tombstone-only values (as the lattices intend)",
                        "map values are SetUnion<HashSet<u8>>; a key's value is identified with its set of <<key, value>> pairs",
                        "replica-to-replica merge passes a clone of the source replica of the same concrete type"]
-    return {"C05": res}
+    nt = {"C01": set(), "C02": set(), "C03": set()}
+    for c in _split_cases(events) + rcases:
+        for e in c[1:]:
+            if e["e"] == "law" and e["a"] != e["b"] and (e["a"]["tomb"] or e["b"]["tomb"]):
+                nt["C01"].add(json.dumps([c[0]["variant"], e["a"], e["b"], e["c"]], sort_keys=True))
+            if e["e"] == "ord" and e["a"] != e["b"] and (e["a"]["tomb"] or e["b"]["tomb"]):
+                nt["C03"].add(json.dumps([c[0]["variant"], e["a"], e["b"]], sort_keys=True))
+                nt["C02"].add(json.dumps([c[0]["variant"], e["a"], e["b"]], sort_keys=True))
+        if _nontrivial(c):
+            nt["C02"].add(_sig(c))
+    for p in ALSO:
+        x = extra[p]
+        x.distinct_nontrivial = len(nt[p])
+        x.rule = ("tombstone lattices (set / map; hash, roaring, fst backends): case = explicit values (a, b[, c]) over the "
+                  "small domain or a replica history; non-trivial = distinct values with at least one tombstone (C02 also: "
+                  "histories with merges, live items and tombstones); distinct by inputs")
+        x.assumptions = ["the type's own == / partial_cmp exist only for the HashSet tombstone backend; the roaring and fst "
+                         "backends are compared through their revealed contents"]
+        x.samples.append({"kind": "tombstone-lattice case", "events": [e for e in next(
+            c for c in _split_cases(events) if len(c) > 1 and c[1]["e"] == ("law" if p == "C01" else "ord") and c[1]["a"]["tomb"])]})
+    out = {"C05": res}
+    out.update(extra)
+    return out
 
 
 def replay(pid, path):
